@@ -67,6 +67,9 @@ Complete == Ready /\ grp = <<>> /\ ~need /\ expect \in {"mods", "slash", "closed
 Accepted == Complete => Converted.kind = "ok"
 Tiling == Complete => TilingInv
 \* facts of the converted tree that hold for every abbreviation of the grammar
+\* C12 on the model: the output of the transcribed HTML formatter (formatting on, default options), read back by the scanner
+\* transcription, has every line at the depth of the elements open there and closing tags under their open tags (AbbrPrint!LayoutOk)
+LayoutInv == Complete => LayoutOk
 TreeFacts == Complete => LET L == ConvertOut.nodes IN
                 /\ L # <<>> /\ L[1].d = 0
                 /\ \A i \in 2..Len(L) : L[i].d <= L[i - 1].d + 1                 \* pre-order listing of a forest
